@@ -75,6 +75,7 @@ func main() {
 	noPanics := flag.Bool("nopanics", false, "do not discharge panic obligations")
 	dumpDir := flag.String("dump", "", "dump smt queries to dir")
 	maxCalls := flag.Int("maxcalls", 200000, "inlined call budget")
+	stubs := flag.String("stubs", "", "comma-separated fn=harnessFn: replace an ergo function by a harness-level summary (verified separately)")
 	flag.Parse()
 
 	os.Setenv("PATH", "/opt/veriftools/go1.26.8/bin:"+os.Getenv("PATH"))
@@ -128,6 +129,23 @@ func main() {
 	}
 	Lits.Prescan(lits)
 
+	for _, kv := range strings.Split(*stubs, ",") {
+		if kv == "" {
+			continue
+		}
+		p := strings.SplitN(kv, "=", 2)
+		target := p[1]
+		modelTable[ergoPath+"."+p[0]] = func(ex *Exec, c *callCtx) Value {
+			fn := ex.pkg.Func(target)
+			if fn == nil {
+				panic(unsupported("summary function %s not found", target))
+			}
+			saved := c.fr.guard
+			res := ex.callFunction(fn, c.args, nil, c.guard, c.pos)
+			c.fr.guard = saved
+			return res
+		}
+	}
 	pool := NewSolverPool(*solver, *workers)
 	var pool2 *SolverPool
 	if *second != "" {
@@ -181,6 +199,7 @@ func runEntry(prog *ssa.Program, epkg *ssa.Package, entry string, cfg Config, po
 	True = TS.intern(&Term{op: "const", sort: SBool, ival: bigOne})
 	False = TS.intern(&Term{op: "const", sort: SBool, ival: bigZero})
 	outputs = nil
+	upperMemo = map[*Term][2]int{}
 	wrapped = map[*Object]RefV{}
 	shortIDCount = 0
 	ex := NewExec(prog, epkg, cfg)
